@@ -192,7 +192,8 @@ Lemma process_inet_ok le o v6 ty lk filt hdr socks is6 :
   process_inet le o (Some (k_ifile le hdr socks)) is6 (if v6 then AF_INET6 else AF_INET) ty lk filt
   = Val (flat_map (fun s => olist (ref_inet_row lk filt (if v6 then AF_INET6 else AF_INET) ty s)) (shown o v6 socks)).
 Proof.
-  intros Hlk Hh Hwf Hty Ho Hsafe. unfold process_inet. rewrite Hsafe.
+  intros Hlk Hh Hwf Hty Ho Hsafe. unfold process_inet. cbv zeta.
+  apply text_safe_parts in Hsafe as [Hcr Hss]. rewrite (univ_nl_id _ Hcr), Hss.
   unfold k_ifile. rewrite lines_keep_line by exact Hh.
   rewrite (lines_keep_lines (k_iline le) (iline_body le)).
   - cbn [tl]. now apply inet_lines_ok.
@@ -341,17 +342,54 @@ Proof.
     destruct (u_path u); [|reflexivity]. rewrite contains_cons, Hnl. reflexivity.
 Qed.
 
+(* reading the unix file: LF-terminated records; with universal newlines (before 0e98900) only when no CR occurs *)
+Lemma process_unix_lines {A} v fam lk filt (f body : A -> bytes) xs :
+  (forall x, In x xs -> f x = body x ++ [10] /\ contains 10 (body x) = false) ->
+  forallb (fun x => line_guard v (f x)) xs = true ->
+  v_lf v = true \/ contains 13 (hdr_unix ++ 10 :: concat (map f xs)) = false ->
+  process_unix v (Some (hdr_unix ++ 10 :: concat (map f xs))) fam lk filt = unix_lines v fam lk filt (map f xs).
+Proof.
+  intros Hlines Hg Hcr. unfold process_unix. cbv zeta.
+  destruct (v_lf v).
+  - rewrite lines_keep_line by reflexivity.
+    rewrite (lines_keep_lines f body) by exact Hlines. cbn [tl]. rewrite forallb_map, Hg. reflexivity.
+  - destruct Hcr as [Hcr|Hcr]; [discriminate|]. rewrite (univ_nl_id _ Hcr).
+    rewrite lines_keep_line by reflexivity.
+    rewrite (lines_keep_lines f body) by exact Hlines. cbn [tl]. rewrite forallb_map, Hg. reflexivity.
+Qed.
+
+(* the tokenised part of a printed record is its fixed-format part *)
+Lemma unix_head_uline u : wf_usock u = true -> unix_head (k_uline u) = uline_head u.
+Proof.
+  intros Hwf. pose proof (six_ok u Hwf) as Hsix.
+  apply wf_usock_parts in Hwf as (H1 & H2 & H3 & H4 & H5 & Hino & Hnl).
+  pose proof Hino as Hino'. apply is_dec_tok in Hino' as [Hne Hnw].
+  assert (H32 : contains 32 (u_inode u) = false) by (apply no_ws_contains; [reflexivity|exact Hnw]).
+  unfold unix_head, uline_head. fold (six u).
+  assert (Ek : k_uline u = k_seq (u_pad u) 0 (six u) (u_inode u ++ uline_tail u)) by reflexivity.
+  rewrite Ek. change 6%nat with (length (six u) + 0)%nat. rewrite rest_after_k_seq by exact Hsix.
+  cbn [rest_after]. rewrite lstrip_tok by (apply tok_ok_spec; auto).
+  unfold uline_tail. destruct (u_path u) as [p|].
+  - rewrite after_space_tok by exact H32.
+    replace (u_inode u ++ 32 :: p ++ [10]) with ((u_inode u ++ [32]) ++ (p ++ [10])) by (now rewrite <- app_assoc).
+    rewrite k_seq_app_last. apply firstn_app_minus.
+  - rewrite after_space_none by (rewrite contains_app, H32; reflexivity).
+    cbn [length]. rewrite Nat.sub_0_r. apply firstn_all.
+Qed.
+Lemma line_guard_exact v u :
+  v_exact v = true -> wf_usock u = true -> line_guard v (k_uline u) = str_safe (uline_head u).
+Proof. intros Hv Hwf. unfold line_guard. rewrite Hv. now rewrite unix_head_uline. Qed.
+
 Lemma process_unix_ok v fam lk filt socks :
   forallb wf_usock socks = true ->
   v_exact v = true \/ forallb (fun u => negb (path_lead_ws u)) socks = true ->
-  text_safe (k_ufile socks) = true ->
+  forallb (fun u => line_guard v (k_uline u)) socks = true ->
+  v_lf v = true \/ contains 13 (k_ufile socks) = false ->
   process_unix v (Some (k_ufile socks)) fam lk filt = Val (flat_map (ref_unix_rows fam lk filt) socks).
 Proof.
-  intros Hwf Hl Hsafe. unfold process_unix. rewrite Hsafe.
-  unfold k_ufile. rewrite lines_keep_line by reflexivity.
-  rewrite (lines_keep_lines k_uline uline_body).
-  - cbn [tl]. now apply unix_lines_ok.
-  - intros u Hu. rewrite forallb_forall in Hwf. apply uline_is_line. now apply Hwf.
+  intros Hwf Hl Hg Hcr. unfold k_ufile in *.
+  rewrite (process_unix_lines v fam lk filt k_uline uline_body); [now apply unix_lines_ok| |exact Hg|exact Hcr].
+  intros u Hu. rewrite forallb_forall in Hwf. apply uline_is_line. now apply Hwf.
 Qed.
 
 (* ------------------------------------------------------------ malformed lines: what reaches which branch *)
@@ -446,14 +484,14 @@ Qed.
 Theorem process_unix_items_ok v fam lk filt items :
   forallb uitem_ok items = true ->
   v_exact v = true \/ forallb (fun u => negb (path_lead_ws u)) (socks_of items) = true ->
-  text_safe (k_ufile_items items) = true ->
+  forallb (fun i => line_guard v (k_uitem i)) items = true ->
+  v_lf v = true \/ contains 13 (k_ufile_items items) = false ->
   process_unix v (Some (k_ufile_items items)) fam lk filt
   = Val (flat_map (ref_unix_rows fam lk filt) (socks_of items)).
 Proof.
-  intros Hwf Hl Hsafe. unfold process_unix. rewrite Hsafe.
-  unfold k_ufile_items. rewrite lines_keep_line by reflexivity.
-  rewrite (lines_keep_lines k_uitem (fun i => match i with USock u => uline_body u | UJunk j => j end)).
-  - cbn [tl]. now apply unix_lines_items_ok.
+  intros Hwf Hl Hg Hcr. unfold k_ufile_items in *.
+  rewrite (process_unix_lines v fam lk filt k_uitem (fun i => match i with USock u => uline_body u | UJunk j => j end));
+    [now apply unix_lines_items_ok| |exact Hg|exact Hcr].
   - intros i Hi. rewrite forallb_forall in Hwf. specialize (Hwf i Hi). destruct i as [u|j]; cbn [k_uitem uitem_ok] in *.
     + now apply uline_is_line.
     + split; [reflexivity|]. unfold junk_ok in Hwf. apply andb_true_iff in Hwf as [Hwf _].
@@ -472,11 +510,17 @@ Qed.
 Theorem unix_junk_lines_change_nothing v fam lk filt items :
   forallb uitem_ok items = true ->
   v_exact v = true \/ forallb (fun u => negb (path_lead_ws u)) (socks_of items) = true ->
-  text_safe (k_ufile_items items) = true -> text_safe (k_ufile (socks_of items)) = true ->
+  forallb (fun i => line_guard v (k_uitem i)) items = true ->
+  v_lf v = true \/ (contains 13 (k_ufile_items items) = false /\ contains 13 (k_ufile (socks_of items)) = false) ->
   exists rows, process_unix v (Some (k_ufile_items items)) fam lk filt = Val rows
                /\ process_unix v (Some (k_ufile (socks_of items))) fam lk filt = Val rows.
 Proof.
-  intros Hwf Hl H1 H2. eexists. split.
-  - now apply process_unix_items_ok.
-  - apply process_unix_ok; [now apply socks_of_wf|exact Hl|exact H2].
+  intros Hwf Hl Hg Hcr. eexists. split.
+  - apply process_unix_items_ok; try assumption. destruct Hcr as [H|[H _]]; [now left|now right].
+  - apply process_unix_ok; [now apply socks_of_wf|exact Hl| |destruct Hcr as [H|[_ H]]; [now left|now right]].
+    clear -Hg. induction items as [|i r IH]; [reflexivity|].
+    cbn [forallb] in Hg. apply andb_true_iff in Hg as [Hi Hr].
+    destruct i as [u|j]; cbn [socks_of flat_map app k_uitem] in *; fold (socks_of r).
+    + cbn [forallb]. now rewrite Hi, IH.
+    + now apply IH.
 Qed.
